@@ -195,11 +195,16 @@ def contradiction(rng, desc, metas, kind):
         for k in pk:
             metas[k]["ovni"].pop("app_id", None)
     elif kind == "index-gap":
+        # one index of 0..N-1 is missing: its CPU got an index just past the end (N, so that the largest
+        # index equals the number of CPUs), a little further, or far away
+        ncpu = len(l["cpus"])
+        victim = rng.randrange(ncpu)
+        moved = ncpu + rng.choice([0, 0, 1, 3, 1000])
         for k in lk:
             if "loom_cpus" in metas[k]["ovni"]:
                 for c in metas[k]["ovni"]["loom_cpus"]:
-                    if c["index"] == 0:
-                        c["index"] = len(l["cpus"]) + 3
+                    if c["index"] == victim:
+                        c["index"] = moved
     elif kind == "negative-index":
         k = rng.choice(lk)
         metas[k]["ovni"].setdefault("loom_cpus", []).append({"index": -2, "phyid": 998})
